@@ -538,7 +538,7 @@ fn main() {
     quiet_panics();
     let args = parse_args();
     let dumps: Vec<Dump> = archs().iter().map(|a| dump(a.as_ref())).collect();
-    let mut header = String::from("From Coq Require Import ZArith List NArith String.\nFrom Falcon Require Import Base.Res Arch.Descr Arch.CcSpec Arch.CcOk Arch.C20Check.\nImport ListNotations.\nLocal Open Scope Z_scope.\nLocal Open Scope string_scope.\n");
+    let mut header = String::from("From Coq Require Import String.\nFrom Coq Require Import ZArith List NArith.\nFrom Falcon Require Import Base.Res Arch.Descr Arch.CcSpec Arch.CcOk Arch.C20Check.\nImport ListNotations.\nLocal Open Scope Z_scope.\nLocal Open Scope string_scope.\n");
     for d in &dumps { header.push_str(&g_dump(d)); header.push('\n'); }
     let mut cases: Vec<Case> = vec![];
     for d in &dumps {
